@@ -440,6 +440,120 @@ def parseRule {α β : Type} (lines : List (Kw × Payload α β)) : Option (Rule
 
 end Wntr.InpText
 
+/-! ## `InpRead` — the line handling of `InpFile.read` (wntr/epanet/io.py): blank lines, section headers, `[END]`, text
+before the first header, unknown sections; and what each section reader does with a stored line (`split(';')[0].split()`).
+Characters: ASCII white space and ASCII case mapping are modelled (Python's `str.strip/split/upper` also know the
+Unicode ones). -/
+namespace Wntr.InpRead
+
+def isWs (c : Char) : Bool := c == ' ' || c == '\t' || c == '\n' || c == '\r' || c == '\x0b' || c == '\x0c'
+
+def lstrip (l : List Char) : List Char := l.dropWhile isWs
+
+/-- `str.strip()` -/
+def strip (l : List Char) : List Char := (lstrip (lstrip l).reverse).reverse
+
+/-- `str.split()` (any run of white space separates; no empty fields); `cur` is the reversed field being read -/
+def splitWsAux : List Char → List Char → List (List Char)
+  | [], cur => if cur.isEmpty then [] else [cur.reverse]
+  | c :: t, cur =>
+    if isWs c then (if cur.isEmpty then splitWsAux t [] else cur.reverse :: splitWsAux t [])
+    else splitWsAux t (c :: cur)
+
+def splitWs (l : List Char) : List (List Char) := splitWsAux l []
+
+/-- `line.split(';')[0]` -/
+def beforeSemi (l : List Char) : List Char := l.takeWhile (· != ';')
+
+def upper (l : List Char) : List Char := l.map Char.toUpper
+
+/-- `sec.replace(']', 'S]')` -/
+def addS (l : List Char) : List Char := l.flatMap fun c => if c == ']' then ['S', ']'] else [c]
+
+/-- `sec.replace('S]', ']')` -/
+def dropS : List Char → List Char
+  | 'S' :: ']' :: t => ']' :: dropS t
+  | c :: t => c :: dropS t
+  | [] => []
+
+inductive Header where
+  | sec (name : String)
+  | end_
+  | bad
+  deriving Repr, DecidableEq
+
+/-- the header handling of `read`: upper-case, then try an extra / a missing plural `S`, then `[END]`, else a syntax error -/
+def normSec (names : List String) (tok : List Char) : Header :=
+  let s0 := upper tok
+  let s1 := if names.contains (String.ofList s0) then s0 else (if names.contains (String.ofList (addS s0)) then addS s0 else s0)
+  let s2 := if names.contains (String.ofList s1) then s1 else (if names.contains (String.ofList (dropS s1)) then dropS s1 else s1)
+  if names.contains (String.ofList s2) then .sec (String.ofList s2)
+  else if s2 == "[END]".toList then .end_ else .bad
+
+/-- what `read` sees in one raw line -/
+inductive LineClass where
+  | blank
+  | header (h : Header)
+  | data (stripped : List Char)
+  deriving Repr, DecidableEq
+
+def classify (names : List String) (raw : List Char) : LineClass :=
+  let l := strip raw
+  match splitWs l with
+  | [] => .blank
+  | tok :: _ => if l.head? == some '[' then .header (normSec names tok) else .data l
+
+/-- state of the loop: current section, lines stored per section (in file order), comments before the first header,
+`done` after `[END]` (break), `err` after an ENSyntaxError -/
+structure RState where
+  cur : Option String
+  lines : List (String × List Char)
+  top : List (List Char)
+  done : Bool
+  err : Bool
+  deriving Repr, DecidableEq
+
+def RState.init : RState := ⟨none, [], [], false, false⟩
+
+def stepC (st : RState) (c : LineClass) : RState :=
+  if st.done || st.err then st
+  else match c with
+    | .blank => st
+    | .header (.sec s) => { st with cur := some s }
+    | .header .end_ => { st with cur := none, done := true }
+    | .header .bad => { st with err := true }
+    | .data l =>
+      match st.cur with
+      | none => if l.head? == some ';' then { st with top := st.top ++ [l.tail] } else { st with err := true }
+      | some s => { st with lines := st.lines ++ [(s, l)] }
+
+def readC (cs : List LineClass) : RState := cs.foldl stepC RState.init
+
+/-- `InpFile.read`, first loop -/
+def read (names : List String) (raws : List (List Char)) : RState := readC (raws.map (classify names))
+
+/-- `self.sections[sec]` (line numbers dropped: they only appear in error messages) -/
+def RState.linesOf (st : RState) (s : String) : List (List Char) := (st.lines.filter fun p => p.1 == s).map (·.2)
+
+/-- what a section reader makes of a stored line: `current = line.split(';')[0].split()`, skipped when empty -/
+def fieldsOf (l : List Char) : Option (List (List Char)) :=
+  match splitWs (beforeSemi l) with
+  | [] => none
+  | f => some f
+
+def RState.rows (st : RState) (s : String) : List (List (List Char)) := (st.linesOf s).filterMap fieldsOf
+
+/-- the second half of `read`: the section readers are called in a FIXED order (`order`, extracted from the source) on the
+stored lines; `readers s` is the effect of `_read_<s>` on the model being built -/
+def build {σ : Type} (readers : String → List (List Char) → σ → σ) (order : List String) (st : RState) (m0 : σ) : σ :=
+  order.foldl (fun m s => readers s (st.linesOf s) m) m0
+
+/-- a file made of whole sections -/
+def fileOf (blocks : List (String × List (List Char))) : List LineClass :=
+  blocks.flatMap fun b => LineClass.header (.sec b.1) :: b.2.map LineClass.data
+
+end Wntr.InpRead
+
 /-! ## `InpNorm` — the normalisation under which the oracle compares a model with its re-read copy
 (`harness/props/c12.py: normalise`): what an INP file cannot distinguish -/
 namespace Wntr.InpNorm
